@@ -93,6 +93,8 @@ class C01(InvProp):
         e1.add_faults(rng, scn)
         if rng.chance(0.2):
             scn['edits'] = e1.gen_edits(rng, scn)
+        if scn['patterns'] and rng.chance(0.15):
+            scn['pattern_objects'] = True     # patterns added as Pattern objects that carry time options of their own
         return scn
 
     def oracle(self, scn, out, c):
